@@ -13,6 +13,47 @@ def describe(sc):
     return "%s: %s (%s)" % (sc["svc"], sends[:6], sc.get("ending"))
 
 
+def race_part(ck, scs):
+    """Unsynchronised access to a Go map by two handlers ends the process with a FATAL ERROR (no panic: nothing recovers it)
+    once the two accesses really overlap - a window of nanoseconds that no exploration hits. Go's race detector reports the
+    same pair of accesses whenever they are not ordered, overlapping or not: the exploration's scenarios (concurrent copies,
+    datagram bursts) and a few complete TLS handshakes with different server names run once more against a lab built with
+    -race; a reported race on a MAP in honeytrap's code is a violation, other races are counted in a note."""
+    lab = lib.build_lab_race()
+    if lab is None:
+        ck.notes.append("race detector: the toolchain cannot build with -race here; part skipped")
+        return
+    prefix = os.path.join(lib.scratch(), "race-log")
+    env = {"GORACE": "halt_on_error=0 exitcode=0 log_path=%s" % prefix}
+    old = os.environ.get("GORACE")
+    os.environ["GORACE"] = env["GORACE"]
+    try:
+        r = life.run_child(lab, [s for s in scs if s.get("ending") != "silent"], "race", 1500, 0, par=24)
+        items = [{"id": i, "hello": {"vers": 771, "ciphers": [], "exts": [], "groups": [], "points": [], "sni": n}, "frag": [], "real": True}
+                 for i, n in enumerate(["a.example", "b.example", "a.example", "c.example"])]
+        lib.run_sharded(lab, "c13", items, shards=1, timeout=900, env=env)
+    finally:
+        if old is None:
+            os.environ.pop("GORACE", None)
+        else:
+            os.environ["GORACE"] = old
+    reports = lib.race_reports(prefix)
+    seen = set()
+    for is_map, frames, text in reports:
+        if not is_map or not frames or frames[0] in seen:
+            continue
+        seen.add(frames[0])
+        ck.disagree("race/map/%s" % frames[0][-60:], "two handlers access a map without synchronisation (the runtime ends the process with 'fatal error: concurrent map "
+                    "read and map write' when they overlap): %s" % " <- ".join(frames), {"race_report": text[:3000]})
+    other = {}
+    for is_map, frames, text in reports:
+        if not is_map and frames:
+            other[frames[0]] = other.get(frames[0], 0) + 1
+    ck.cov["race_detector"] = {"reports": len(reports), "on_maps": len(seen), "other_sites": other, "child_report": r.get("report") is not None}
+    if other:
+        ck.notes.append("race detector: %d reports on plain variables (not fatal by themselves, not counted): %s" % (sum(other.values()), sorted(other)[:6]))
+
+
 def run(tier, lab):
     ck = lib.Check(PROP, tier, "exploration")
     r = lib.tlc("MC_ConnLife", timeout=300, constants={"Devs": "{}"}, want_scn=False)
@@ -43,6 +84,7 @@ def run(tier, lab):
         ck.cov["idle_cpu_ms_per_s"] = cpu
         ck.cov["recovered_panics_reported"] = rep["recovered_panics"]
         ck.cov["idle_heap_growth_bytes"] = growth
+    race_part(ck, scs)
     per = {}
     for s in scs:
         per[s["svc"]] = per.get(s["svc"], 0) + 1
@@ -61,6 +103,17 @@ def run(tier, lab):
 
 def replay(lab, path):
     rp = json.load(open(path))["replay"]
+    if rp.get("race_report"):
+        # the race detector's finding: the same part once more (same scenarios, same seed)
+        ck = lib.Check(PROP, "quick", "exploration")
+        ck.findings.entries = []
+        race_part(ck, life.build(ck, "quick", lib.seed()))
+        for sig, p, what in ck.violations:
+            print(sig, what[:300])
+        if ck.violations:
+            print("VIOLATION property=C01 replay=%s" % path)
+            return 1
+        return 0
     sc = rp.get("scenario")
     if not sc or sc.get("id", 0) < 0:
         print("set-level finding: rerun the check")
